@@ -41,8 +41,8 @@ def par_batch(lines: list[str], k: int = 8) -> list[str]:
     """`Driver().batch` over k driver processes (the interpreter is the bottleneck; the replies
     are position-wise, so chunking cannot change them). Chunks are balanced by request size."""
     from concurrent.futures import ThreadPoolExecutor
-    if len(lines) < 2 * k:
-        return Driver().batch(lines)
+    if len(lines) < 2 * k or sum(len(l) for l in lines) < 200000:
+        return Driver().batch(lines)          # small job: one interpreter start is cheaper than k
     order = sorted(range(len(lines)), key=lambda i: -len(lines[i]))
     chunks, load = [[] for _ in range(k)], [0] * k
     for i in order:
@@ -148,12 +148,38 @@ def helper_cases(rng, ncases: int, nmax: int):
     return out
 
 
-def helper_correspondence(rep: Report, rng, ncases: int, nmax: int = 30) -> None:
-    cases = helper_cases(rng, ncases, nmax)
+def run_batched(rep: Report, gens, k: int = 4) -> None:
+    """Correspondence pieces written as generators (`replies = yield request_lines`, None = driver failed):
+    all their requests go through ONE driver job (interpreter start-up is the dominant cost of a small batch)."""
+    live, lines, spans = [], [], []
+    for g in gens:
+        try:
+            ls = next(g)
+        except StopIteration:
+            continue
+        live.append(g)
+        spans.append((len(lines), len(lines) + len(ls)))
+        lines += ls
     try:
-        mo = par_batch([c[0] for c in cases])
+        out = par_batch(lines, k) if lines else []
     except LeanError as e:
         rep.broke("driver: " + str(e)[-800:])
+        out = None
+    for g, (a, b) in zip(live, spans):
+        try:
+            g.send(None if out is None else out[a:b])
+        except StopIteration:
+            pass
+
+
+def helper_correspondence(rep: Report, rng, ncases: int, nmax: int = 30) -> None:
+    run_batched(rep, [helper_correspondence_gen(rep, rng, ncases, nmax)])
+
+
+def helper_correspondence_gen(rep: Report, rng, ncases: int, nmax: int = 30):
+    cases = helper_cases(rng, ncases, nmax)
+    mo = yield [c[0] for c in cases]
+    if mo is None:
         return
     bad = 0
     for (line, exp, meta), m in zip(cases, mo):
